@@ -653,6 +653,121 @@ def g14_sliver_pair(rng):
     return (a, b) if rng.random() < 0.7 else (b, a)
 
 
+def g15_touching_holes_pair(rng):
+    """a rectangle and a fan of triangles that share their left-most vertex (plus, sometimes, a bar right
+    below it): Difference / Xor produce several holes starting in one vertex; valid input"""
+    vx, vy = rng.randint(2, 5), rng.randint(4, 7)
+    k = rng.choice([2, 2, 3])
+    x1 = vx + rng.randint(2, 4)
+    # disjoint sectors on the line x = x1, from bottom to top
+    cuts = sorted(rng.sample(range(2 * (vy - 3), 2 * (vy + 4)), 2 * k))
+    tris = []
+    for i in range(k):
+        lo, hi = Fraction(cuts[2 * i], 2), Fraction(cuts[2 * i + 1], 2)
+        if lo == hi:
+            continue
+        tri = [(vx, vy), (x1, lo), (x1, hi), (vx, vy)]
+        tris.append([tri if rng.random() < 0.7 else list(reversed(tri))])
+    b = tris
+    if rng.random() < 0.5:
+        b = b + [[_rect(vx - 1, vy - 4, x1 + 1, vy - 3 - Fraction(1, 2), True)]]
+    rng.shuffle(b)
+    a = [[_rect(0, 0, x1 + 3, vy + 6, True)]]
+    return (a, b)
+
+
+def g16_parcels_pair(rng):
+    """NOT a valid operand on purpose (used for determinism only, C12): a multipolygon whose members share
+    boundary segments starting in a common vertex (T-junction parcels), against a square"""
+    n = rng.choice([2, 3])
+    cells = [(0, 0, 2, 1), (0, 1, 1, 2), (1, 1, 2, 2), (0, 0, 1, 1), (1, 0, 2, 1), (0, 0, 1, 2), (0, 0, 2, 2)]
+    picks = rng.sample(cells, n)
+    t = [[_rect(x0, y0, x1, y1, rng.random() < 0.5)] for (x0, y0, x1, y1) in picks]
+    m = rng.choice([1, 1, 2])
+    p = [[_rect(-m, -m, 2 + m, 2 + m, True)]] if rng.random() < 0.6 else [[_rect(Fraction(1, 2), -1, Fraction(3, 2), 3, True)]]
+    return (p, t) if rng.random() < 0.5 else (t, p)
+
+
+def _hull(points):
+    pts = sorted(set(points))
+    if len(pts) < 3:
+        return pts
+    def cross(o, a, b):
+        return (a[0] - o[0]) * (b[1] - o[1]) - (a[1] - o[1]) * (b[0] - o[0])
+    lower, upper = [], []
+    for p in pts:
+        while len(lower) >= 2 and cross(lower[-2], lower[-1], p) <= 0:
+            lower.pop()
+        lower.append(p)
+    for p in reversed(pts):
+        while len(upper) >= 2 and cross(upper[-2], upper[-1], p) <= 0:
+            upper.pop()
+        upper.append(p)
+    return lower[:-1] + upper[:-1]
+
+
+def g17_vertex_on_edge_pair(rng):
+    """a convex lattice polygon and a lattice triangle one of whose edges passes exactly through a vertex of
+    the polygon and reaches beyond it; the other crossings are rational, not dyadic, so the long edge is cut
+    at a rounded point before the sweep reaches the vertex lying on it (T-junction after an inexact cut)"""
+    for _try in range(200):
+        h = _hull([(rng.randint(0, 8), rng.randint(0, 8)) for _ in range(rng.choice([3, 4, 4, 5]))])
+        if len(h) < 3:
+            continue
+        v = rng.choice(h)
+        dx, dy = rng.randint(-3, 3), rng.randint(-3, 3)
+        if math.gcd(abs(dx), abs(dy)) != 1:
+            continue
+        m, n = rng.randint(1, 5), rng.randint(1, 5)
+        l0 = (v[0] - m * dx, v[1] - m * dy)
+        l1 = (v[0] + n * dx, v[1] + n * dy)
+        w = (rng.randint(-6, 14), rng.randint(-6, 14))
+        if (l1[0] - l0[0]) * (w[1] - l0[1]) - (l1[1] - l0[1]) * (w[0] - l0[0]) == 0:
+            continue
+        a = [[list(h) + [h[0]]]]
+        b = [[[l0, l1, w, l0]]]
+        return (a, b) if rng.random() < 0.5 else (b, a)
+    return g3_pair(rng)
+
+
+def g18_nested_pair(rng):
+    """nested rectangular rings (a polygon with a hole, an island inside the hole, possibly with its own hole,
+    ...) against one to three rectangles stacked in y that overlap in x: result polygons nested inside holes
+    of other result polygons, with several holes above one another"""
+    depth = rng.choice([2, 3, 3, 4])
+    boxes = [(0, 0, 24, 24)]
+    for _ in range(2 * depth - 1):
+        x0, y0, x1, y1 = boxes[-1]
+        if x1 - x0 < 6 or y1 - y0 < 6:
+            break
+        boxes.append((x0 + rng.randint(1, 2), y0 + rng.randint(1, 2), x1 - rng.randint(1, 2), y1 - rng.randint(1, 2)))
+    a = []
+    for i in range(0, len(boxes), 2):
+        poly = [_rect(*boxes[i], ccw=rng.random() < 0.8)]
+        if i + 1 < len(boxes):
+            poly.append(_rect(*boxes[i + 1], ccw=rng.random() < 0.3))
+        a.append(poly)
+    if rng.random() < 0.3:
+        a.reverse()
+    # clipping rectangles stacked in y inside (or across) the innermost levels
+    lvl = rng.randint(max(0, len(boxes) - 3), len(boxes) - 1)
+    x0, y0, x1, y1 = boxes[lvl]
+    k = rng.choice([1, 2, 2, 3])
+    ys = sorted(rng.sample(range(2 * y0 + 1, 2 * y1), min(2 * k, 2 * (y1 - y0) - 1) // 2 * 2))
+    b = []
+    for j in range(0, len(ys) - 1, 2):
+        cx0 = Fraction(rng.randint(2 * x0 + 1, 2 * x0 + (x1 - x0)), 2)
+        cx1 = Fraction(rng.randint(2 * x0 + (x1 - x0) + 1, 2 * x1 - 1), 2)
+        if rng.random() < 0.25:
+            cx0 -= rng.randint(2, 6)
+        if rng.random() < 0.25:
+            cx1 += rng.randint(2, 6)
+        b.append([_rect(cx0, Fraction(ys[j], 2), cx1, Fraction(ys[j + 1], 2), ccw=rng.random() < 0.7)])
+    if not b:
+        b = [[_rect(x0 + Fraction(1, 2), y0 + Fraction(1, 2), x1 - Fraction(1, 2), y1 - Fraction(1, 2))]]
+    return (a, b) if rng.random() < 0.7 else (b, a)
+
+
 FAMILIES = {
     "g1": g1_pair,
     "g2": g2_pair,
@@ -666,9 +781,13 @@ FAMILIES = {
     "g12": g12_pair,
     "g13": g13_pair,
     "g14": g14_sliver_pair,
+    "g15": g15_touching_holes_pair,
+    "g16": g16_parcels_pair,
+    "g17": g17_vertex_on_edge_pair,
+    "g18": g18_nested_pair,
 }
 # families on which all arithmetic is exact by construction / usually exact / never exact
-EXACT_FAMILIES = {"g1", "g10", "g12", "g13", "g14"}
+EXACT_FAMILIES = {"g1", "g10", "g12", "g13", "g14", "g15", "g16", "g18"}
 # families whose operands stay exact when operands of different pairs (and results of operations) are mixed:
 # all edges axis-parallel
-CLOSED_EXACT_FAMILIES = {"g1", "g12", "g13"}
+CLOSED_EXACT_FAMILIES = {"g1", "g12", "g13", "g18"}
